@@ -21,6 +21,7 @@ FIXES = {  # defect -> subject prefix of the fix commit
  'D9': 'fix: progress seeds its accumulator',
  'D10': 'fix: zstd.decompress accepts an empty chunk',
  'D11': 'fix: split does not compare the first item of a key with itself',
+ 'D12': 'fix: filter on a MuxObservable uses the truth value',
 }
 PQ = {'load_batch': 2, 'row_group': None, 'compression': 'snappy', 'cols': ['i', 's'], 'fileobj': False, 'seed': 1}
 W = [  # (defect, property, sub, name, what, case)
@@ -42,6 +43,8 @@ W = [  # (defect, property, sub, name, what, case)
  ('D9', 'C09', 'derived', 'progress-seed', 'progress raised ValueError on every use', {'node': ['progress', 2], 'tin': 'int', 'driver': 'layers', 'layers': [], 'items': [1, 2, 3]}),
  ('D9', 'C01', 'grouped', 'progress-seed', 'progress raised ValueError on every use (plain and multiplexed)', {'tin': 'int', 'p': [['progress', 1]], 'items': [[0, 0]]}),
  ('D11', 'C06', 'runs', 'split-nan-first', 'split emitted an extra empty segment when the first predicate value of a key differs from itself (NaN)', {'pool': [['nan', 0]], 'preds': [0, 0], 'gk': [0, 0], 'parent': 'none', 'pspec': None, 'p': [['to_list']]}),
+ ('D12', 'C01', 'grouped', 'filter-truthy-int', 'filter with a predicate returning 1 / 0 kept the odd items on a plain observable and dropped every item on a multiplexed one', {'tin': 'int', 'p': [['filter_mod', 2, 0, 'int']], 'items': [[0, 1], [1, 3], [0, 2]]}),
+ ('D12', 'C01', 'grouped', 'filter-numpy-bool', 'filter on numpy scalar items (the comparison returns numpy.bool_) dropped every item on a multiplexed observable', {'tin': 'int', 'p': [['filter_gt', 0]], 'items': [[0, 1], [1, 3]], 'numpy': True}),
  ('D10', 'C16', 'roundtrip', 'zstd-empty-chunk-after-eos', 'zstd.decompress failed on an empty chunk after the end-of-stream marker', {'codec': 'zstd', 'chunks': [[7, 'text', 1]], 'cuts': [1000000]}),
 ]
 
